@@ -55,7 +55,7 @@ def gen(rng, tier, i):
     p.cfg('Port', '4000:telnet')
     p.cfg('MaxEvaluationCost', 200000)
     p.cfg('MaxCallDepth', rng.choice((30, 50)))
-    p.cfg('MaxInheritDepth', 2)
+    p.cfg('MaxInheritDepth', 3)
     st = {'leaf': 0, 'catch': 0}
     kind = rng.choice(('cmd', 'cmd', 'cmd', 'netdead', 'callout', 'heartbeat'))
     p.opt('c05_kind', kind)
